@@ -123,7 +123,10 @@ func lastErr(bs []hx.Batch) *hx.Batch {
 func C05(e *simkern.Env) {
 	tp := e.Tape
 	debug := tp.Bool(1, 2)
-	ops := pipew.GenOps(tp, pipew.GenCfg{MinOps: 3, MaxOps: 9, Bad: true, BadStream: true, FailBias: 8, InitFail: true, MaxTurns: 4, NonceBase: 5000})
+	// half of the runs: the pipe server declares a protocol version, so the
+	// history contains version-gate refusals (unary and stream) on the pipe too
+	pipeVersion := []string{"", "3.4.5"}[tp.Draw(2)]
+	ops := pipew.GenOps(tp, pipew.GenCfg{MinOps: 3, MaxOps: 9, Bad: true, BadStream: true, FailBias: 8, InitFail: true, MaxTurns: 4, NonceBase: 5000, ServerVersion: pipeVersion})
 	// make failures frequent: every other unary fails
 	for i, op := range ops {
 		if op.Kind == "unary" && op.Bad == "" && op.Script.Outcome == "ok" && i%2 == 0 {
@@ -152,7 +155,12 @@ func C05(e *simkern.Env) {
 		defer sim.Close()
 		hx.Rec.Reset()
 		judged := 0
-		sess := &pipew.Session{Srv: pipew.NewServer(func(s *vgirpc.Server) { s.SetDebugErrors(debug) }), Ops: ops}
+		sess := &pipew.Session{Srv: pipew.NewServer(func(s *vgirpc.Server) {
+			s.SetDebugErrors(debug)
+			if pipeVersion != "" {
+				s.SetProtocolVersion(pipeVersion)
+			}
+		}), Ops: ops}
 		reason := pipew.RunSession(sim, sess, kn, 60000)
 		if reason == simkern.StopDeadlock {
 			e.Violate("session-deadlock", "pipe:"+nextSig(sess), "%s", sess.StuckDetail())
@@ -298,6 +306,17 @@ func C05(e *simkern.Env) {
 						return
 					}
 				}
+				// the operator drains the worker; a handler that now asks for a new
+				// session gets the framework's draining error and returns it as is
+				cl.Inst[3].H.DrainHandle().Drain()
+				opn := &pipew.Op{Kind: "unary", Method: "u_int", Script: &hx.Script{Nonce: 5904, Outcome: "ok", Sess: "open"}, CancelAt: -1, Extra: hx.M(hx.KProtoVer, "2.1.7")}
+				if t := httpw.Decode(httpw.Post(cl.Inst[3], "/u_int", pipew.RequestBytes(opn), httpw.Ident{}, map[string]string{"VGI-Session-Accept": "true"})); t.Err != nil {
+					judged++
+					sim.Probe("draining-refusal")
+					if c05Judge(e, "http:draining-refusal", t.Err, errWant{typ: "ServerDrainingError", kind: strp("server_draining")}, debug) {
+						return
+					}
+				}
 			})
 			r2, _ := sim.Run(simkern.RunOpts{MaxSteps: 200000, Done: sim.RootsDone})
 			cl.Shutdown(sim)
@@ -317,12 +336,12 @@ func init() {
 	Registry["C05"] = &Info{
 		Run:   C05,
 		Level: "exploration",
-		Rule:  "session-oracle check: each run draws debug errors on/off and a history of 3-9 calls in which most fail: handler errors of every shape (RpcError with arbitrary Type/Kind incl. empty, plain errors.New, fmt.Errorf %w chains, custom error types, wrapped RpcError, errors.Join), panics with string/error/struct/int/*RpcError/wrapped-RpcError values, stream init failures, mid-stream error/panic/no-emit/double-emit/finish-on-exchange, malformed requests, unknown methods; the history runs on a simulated pipe and over HTTP (unary, stream init, exchange and producer turns), then two failing calls on a second server (pipe) and instance (HTTP) of the same process that runs with the opposite debug setting, followed by the framework's own refusals over HTTP (max_response_bytes on unary and exchange, max_externalized_response_bytes, protocol-version gate, session lost); every exception batch is judged; distinct = schedule fingerprint; non-trivial = at least one exception batch judged",
+		Rule:  "session-oracle check: each run draws debug errors on/off and a history of 3-9 calls in which most fail: handler errors of every shape (RpcError with arbitrary Type/Kind incl. empty, plain errors.New, fmt.Errorf %w chains, custom error types, wrapped RpcError, errors.Join), panics with string/error/struct/int/*RpcError/wrapped-RpcError values, stream init failures, mid-stream error/panic/no-emit/double-emit/finish-on-exchange, malformed requests, unknown methods; the history runs on a simulated pipe and over HTTP (unary, stream init, exchange and producer turns), then two failing calls on a second server (pipe) and instance (HTTP) of the same process that runs with the opposite debug setting, followed by the framework's own refusals over HTTP (max_response_bytes on unary and exchange, max_externalized_response_bytes, protocol-version gate, session lost, new session while draining); in half of the runs the pipe server declares a protocol version, so version-gate refusals are judged on the pipe under both debug settings; every exception batch is judged; distinct = schedule fingerprint; non-trivial = at least one exception batch judged",
 		Real:  []string{"vgirpc error envelope (buildErrorExtra, writeErrorBatch) on serveUnary/serveStream/HTTP unary/stream paths, response caps, version gate, sticky token resolution"},
 		Stub:  []string{"transports", "protocol client", "scripted handlers", "object store"},
 		Quick: 600, Thorough: 60000,
 		Warm: warmHTTP, FaultKinds: []string{"malformed-request", "read-fragmentation", "write-delay"},
-		Assumptions: []string{"for framework refusals that are not scripted RpcError values the check demands a wire-stable name (never a Go %T type name) and, where the documentation names one, that exact name: AttributeError for an unknown method, RuntimeError for cap refusals; error_kind is asserted for scripted errors, protocol_version_mismatch and session_lost"},
+		Assumptions: []string{"for framework refusals that are not scripted RpcError values the check demands a wire-stable name (never a Go %T type name) and, where the documentation names one, that exact name: AttributeError for an unknown method, RuntimeError for cap refusals; error_kind is asserted for scripted errors, protocol_version_mismatch, session_lost and server_draining (type ServerDrainingError, as errors.go documents)"},
 	}
 }
 
